@@ -407,13 +407,14 @@ class Formatter:
             lambda m: self._replace_tokens(m.group(0), loaded_locale), escaped_fmt
         )
 
-        if not re.fullmatch(pattern, time):
+        m = re.fullmatch(pattern, time)
+        if not m:
             raise ValueError(f"String does not match format {fmt}")
 
-        def _get_parsed_values(m: Match[str]) -> Any:
-            return self._get_parsed_values(m, parsed, loaded_locale, now)
-
-        re.sub(pattern, _get_parsed_values, time)
+        # The values are read from the match of the whole string: searching
+        # again could stop at a name that is the prefix of the one that was
+        # written (in Turkish, "Cuma" in "Cumartesi")
+        self._get_parsed_values(m, parsed, loaded_locale, now)
 
         return self._check_parsed(parsed, now)
 
